@@ -53,7 +53,7 @@ def preload():
 
 
 def cases(tier, seed):
-    n = 480 if tier == "quick" else 12000
+    n = 960 if tier == "quick" else 16000
     return [{"seed": seed * 611953 + i * 3 + 1, "kind": KINDS[i % len(KINDS)]} for i in range(n)]
 
 
